@@ -328,7 +328,7 @@ LOGIC_OPS = ["And", "Or"]
 OTHER_OPS = ["In", "NotIn", "Xor", "Is", "FollowedBy", "BitAnd", "BitOr", "BitXor", "Shl", "Shr"]
 BUILTINS_1 = ["abs", "sqrt", "floor", "ceil", "round", "len", "first", "last", "pop", "reverse", "sort", "keys", "values",
               "sum", "avg", "to_string", "to_int", "to_float", "trim", "lower", "lowercase", "upper", "uppercase", "type_of",
-              "is_null", "is_int", "is_float", "is_string", "is_bool", "is_array", "is_map", "log", "log10", "exp", "sin", "cos", "tan"]
+              "is_null", "is_int", "is_float", "is_string", "is_bool", "is_array", "is_map", "log", "log10", "exp", "sin", "cos", "tan", "range"]
 BUILTINS_2 = ["pow", "min", "max", "push", "contains", "get", "split", "join", "starts_with", "ends_with", "substring"]
 BUILTINS_3 = ["set", "replace", "substring"]
 OPAQUE_CALLS = {"log", "log10", "exp", "sin", "cos", "tan"}
@@ -487,6 +487,38 @@ class Gen:
             return {"bin": [op, a, b]}
         return {"bin": [op, self.float_lit(), self.float_lit()]}
 
+    # argument kinds each built-in does something with (so that generated calls reach its arms)
+    HINTS = {"abs": ["num"], "sqrt": ["num"], "floor": ["num"], "ceil": ["num"], "round": ["num"], "log": ["num"], "log10": ["num"],
+             "exp": ["num"], "sin": ["num"], "cos": ["num"], "tan": ["num"], "pow": ["num", "num"], "min": ["num", "num"], "max": ["num", "num"],
+             "len": ["coll"], "first": ["arr"], "last": ["arr"], "push": ["arr", "any"], "pop": ["arr"], "reverse": ["coll"], "sort": ["arr"],
+             "contains": ["coll", "any"], "keys": ["map"], "values": ["map"], "get": ["coll", "key"], "set": ["coll", "key", "any"],
+             "sum": ["arr"], "avg": ["arr"], "to_string": ["any"], "to_int": ["any"], "to_float": ["any"], "trim": ["str"], "lower": ["str"],
+             "lowercase": ["str"], "upper": ["str"], "uppercase": ["str"], "split": ["str", "str"], "join": ["arr", "str"],
+             "replace": ["str", "str", "str"], "starts_with": ["str", "str"], "ends_with": ["str", "str"], "substring": ["str", "int", "int"],
+             "type_of": ["any"], "is_null": ["any"], "is_int": ["any"], "is_float": ["any"], "is_string": ["any"], "is_bool": ["any"],
+             "is_array": ["any"], "is_map": ["any"]}
+
+    def typed_arg(self, kind, depth):
+        rng = self.rng
+        if kind == "any" or rng.chance(1, 4):
+            return self.expr(depth - 1)
+        if kind == "num":
+            return rng.choice([{"id": "x"}, {"id": "y"}, {"id": "q"}, {"id": "price"}, self.int_lit(), self.float_lit()])
+        if kind == "int":
+            return rng.choice([{"id": "x"}, {"id": "q"}, self.int_lit(), v_int(rng.range(0, 5)), v_int(rng.range(0, 5))])
+        if kind == "str":
+            return rng.choice([{"id": "name"}, {"id": "name"}, {"s": rng.choice(STR_BOUNDARY)}, {"s": rng.choice(["a", "", " ", ",", "l"])}])
+        if kind == "arr":
+            return rng.choice([{"id": "arr"}, {"id": "arr"}, {"arr": [self.expr(depth - 1) for _ in range(rng.below(4))]},
+                               {"call": [{"id": "split"}, [{"id": "name"}, {"s": rng.choice(["", " ", ","])}]]}])
+        if kind == "map":
+            return rng.choice([{"id": "m"}, {"id": "m"}, {"map": [[kk, self.expr(depth - 1)] for kk in rng.shuffle(["a", "b", "k"])[:rng.below(3)]]}])
+        if kind == "coll":
+            return rng.choice([{"id": "arr"}, {"id": "m"}, {"id": "name"}, {"s": rng.choice(STR_BOUNDARY)}])
+        if kind == "key":
+            return rng.choice([v_int(rng.range(-2, 4)), self.int_lit(), {"s": rng.choice(["a", "b", "k", "x"])}, {"id": "x"}])
+        return self.expr(depth - 1)
+
     def call(self, depth):
         rng = self.rng
         r = rng.below(10)
@@ -501,7 +533,8 @@ class Gen:
             name, n = rng.choice(BUILTINS_1 + BUILTINS_2 + ["nosuch"]), rng.below(4)
         if name == "range":
             return {"call": [{"id": "range"}, [v_int(rng.below(5)), v_int(rng.below(7))][:max(1, n)]]}
-        args = [self.expr(depth - 1) for _ in range(n)]
+        hints = self.HINTS.get(name, [])
+        args = [self.typed_arg(hints[k] if k < len(hints) else "any", depth) for k in range(n)]
         if rng.chance(1, 12) and args:
             args[0] = {"named": ["v", args[0]]}
         return {"call": [{"id": name}, args]}
@@ -537,8 +570,11 @@ class Gen:
                 lambda: {"mem": [{"id": rng.choice(["m", "A", "x"])}, rng.choice(["a", "b", "x"])]},
             ])()
         # profile 'all'
-        if k < 80:
+        if k < 78:
             return self.call(depth)
+        if k < 80:
+            return {"bin": [rng.choice(["In", "NotIn", "Xor"]), self.expr(depth - 1),
+                            rng.choice([{"id": "arr"}, {"id": "m"}, {"id": "name"}, self.expr(depth - 1)])]}
         if k < 83:
             return {"arr": [self.expr(depth - 1) for _ in range(rng.below(4))]}
         if k < 85:
@@ -568,6 +604,26 @@ class Gen:
         if k < 99:
             return {"ts": "1704067200000000000"}
         return {"un": ["BitNot", self.expr(depth - 1)]}
+
+
+def builtin_sweep(rng, per):
+    """`per` calls of every built-in with arguments of the kinds it handles (plus its arity edge)"""
+    g = Gen(rng, "all")
+    out = []
+    for name in sorted(Gen.HINTS) + ["range"]:
+        for k in range(per):
+            if name == "range":
+                e = {"call": [{"id": "range"}, [v_int(rng.below(5)), v_int(rng.below(7))][:1 + k % 2]]}
+            else:
+                hints = Gen.HINTS[name]
+                n = len(hints) if (k < per - 1 or per == 1) else rng.choice([len(hints) - 1, len(hints) + 1])
+                if name == "substring" and k % 2 == 0:
+                    n = 2
+                args = [g.typed_arg(hints[j] if j < len(hints) else "any", 2) for j in range(max(0, n))]
+                e = {"call": [{"id": name}, args]}
+            if not has_big_range(e):
+                out.append(e)
+    return out
 
 
 def subexprs(e):
@@ -712,14 +768,6 @@ def opaque_reason(e, ev):
                     return "parse-f64"
             if name in ("to_string", "join") and floats_or_ts:
                 return "display-f64"
-            if name == "sort":
-                a0 = args[0] if args else None
-                ok = False
-                if a0 is not None and "id" in a0:
-                    vs = [v for n, v in ev["fields"] if n == a0["id"]]
-                    ok = not vs or clean_sortable(vs[0])
-                if not ok:
-                    return "sort-comparator"
             if name in ("lower", "lowercase", "upper", "uppercase"):
                 pass
     return None
